@@ -214,7 +214,7 @@ func metaConns(tr *atrun.Trace) map[int]bool {
 	return meta
 }
 
-func tokenize(tr *atrun.Trace, meta map[int]bool, st atrun.StepResult, business string, canon map[int]int, strict bool) ([]Tok, []Raw, []string) {
+func tokenize(tr *atrun.Trace, meta map[int]bool, st atrun.StepResult, business string, isStmt bool, canon map[int]int, strict bool) ([]Tok, []Raw, []string) {
 	toks, raws, tcs := []Tok{}, []Raw{}, []string{}
 	for _, e := range tr.Journal {
 		if e.Seq <= st.SeqFrom || e.Seq > st.SeqTo {
@@ -251,7 +251,7 @@ func tokenize(tr *atrun.Trace, meta map[int]bool, st atrun.StepResult, business 
 		case d.Kind == fakedb.JReset || d.Kind == fakedb.JConnect || d.Kind == fakedb.JClose:
 		case d.Kind == fakedb.JBegin || d.Kind == fakedb.JCommit || d.Kind == fakedb.JRollback:
 			toks = append(toks, Tok{T: d.Kind, Ok: ok})
-		case business != "" && d.SQL == business:
+		case isStmt && d.SQL == business:
 			toks = append(toks, Tok{T: "BIZ:" + d.Kind, Ok: ok, Nz: nz})
 		case isInfoSchema(d.SQL):
 			toks = append(toks, Tok{T: "META", Ok: ok})
@@ -281,7 +281,7 @@ func observe(p *Program, mode string) *ModeObs {
 	canon := map[int]int{}
 	meta := metaConns(tr)
 	add := func(st atrun.StepResult, o Op, strict bool) {
-		toks, raws, tcs := tokenize(tr, meta, st, o.SQL, canon, strict)
+		toks, raws, tcs := tokenize(tr, meta, st, o.SQL, o.K == "stmt", canon, strict)
 		so := StepObs{Class: st.Class, ErrClass: st.ErrClass, Affected: st.Affected, LastID: st.LastID, Columns: st.Columns,
 			ColTypes: st.ColTypes, Rows: st.Rows, Toks: toks, Raw: raws, TC: tcs}
 		if st.Class != "ok" {
